@@ -257,6 +257,13 @@ def main():
     else:
         f0 = []
     f1 = scenrun.evaluate(rep, s1, eval_grid, procs=a.procs, chunksize=16)
+
+    def _mut(s):
+        if s["pred"]["class"] != "fullOnly" or not s["pred"]["enough"] or not s["pred"]["dropF"]:
+            return None
+        s["pred"]["dropF"] = s["pred"]["dropF"][1:]
+        return s
+    scenrun.self_test(rep, s1, eval_grid, _mut, "one dropped feature removed from the prediction", tries=2000)
     s2 = scenrun.enumerate_scenarios(rep, "MC_XMask", cfg(rep.tier, "KCross", 3, 4), f"c06cross_{rep.tier}")
     f2 = scenrun.evaluate(rep, s2, eval_cross, procs=a.procs)
     scenrun.report(rep, f0 + f1 + f2, TAGS)
